@@ -45,7 +45,9 @@ CFG = dict(
                       "Write ends with its context, CAssert 2 = the channel transport hands over a 1 MiB envelope unchanged, "
                       "CAssert 3 = Write returns an error for an envelope that the far end refused with 503 / 400 (regression of http-write-ignores-status, "
                       "fixed in /repo 2aacfa6: a nil from Write means 'answered 200', and 200 is answered only with the delivery))",
-                 "3": "a Read/Write whose context is done was still blocked at quiescence (spec_chan_ctx)"},
+                 "3": "a Read/Write whose context is done (issued with a done context, or cancelled since) was still blocked at a quiescent point - any "
+                      "quiescent point, not only the last (spec_chan_ctx, spec_ws_ctx, spec_http_ctx); the channel rig releases such a call at the end "
+                      "(drain / close) so that the scenario is emitted and judged instead of wedging"},
     rule="wire: every present/absent combination of the 5 sub-messages x ids {0,1,127,128,...,2^63,2^64-1} x bodies {0,1,17,300,"
          "64KiB (thorough: 1MiB)} x empty/ASCII/non-ASCII/NUL/long strings x repeated fields 0..5, invalid UTF-8 in every string "
          "field, ~70 hand-written corners of the wire format, seeded mutations of valid encodings, random bytes; channel: ALL "
